@@ -18,6 +18,11 @@ def identity(x):
     return x
 
 
+def contract_blocks(a, b):
+    """kernel of blockwise(..., 'ij', x, 'ik', y, 'kj', concatenate=True)"""
+    return np.matmul(a, b)
+
+
 def plus_total(block, m=None):
     """block + (sum of the whole array handed in as a keyword argument).  The function must be given the
     finalized NumPy value, never the lazy collection (which would compute inside a task)."""
